@@ -296,6 +296,6 @@ Proof.
   repeat split; try reflexivity.
   - apply (proj2 (proj2 (Hc _ sn fname v))).
   - apply (proj2 (proj2 (Hc _ [] [] v))).
-  - intros -> Hs. exists (f (x :: vn') [] key (VStr s)). destruct s; [congruence|]. split; [reflexivity|].
-    apply (proj2 (proj2 (Hc _ [] (map_get_key prefix key) (VStr (b :: s))))).
+  - intros -> Hs. exists (f (x :: vn') [] key (VStr s)). destruct s as [|b0 s]; [congruence|]. split; [reflexivity|].
+    apply (proj2 (proj2 (Hc _ [] (map_get_key prefix key) (VStr (b0 :: s))))).
 Qed.
